@@ -49,6 +49,15 @@ func accessPath(v ssa.Value, depth int) string {
 			return uniqueName(v)
 		}
 		callee := cc.StaticCallee()
+		if callee != nil && callee.Signature.Recv() == nil {
+			if o := callee.Origin(); o != nil && o.Pkg != nil && o.Pkg.Pkg.Path() == "slices" && (o.Name() == "Contains" || o.Name() == "Index" || o.Name() == "IndexFunc") {
+				parts := make([]string, len(cc.Args))
+				for i, a := range cc.Args {
+					parts[i] = accessPath(a, depth+1)
+				}
+				return "slices." + o.Name() + "(" + strings.Join(parts, ", ") + ")"
+			}
+		}
 		if callee != nil && callee.Signature.Recv() == nil && callee.Pkg != nil && callee.Pkg.Pkg.Path() == "strings" {
 			// pure library function: same arguments, same result
 			parts := make([]string, len(cc.Args))
